@@ -19,14 +19,12 @@ type idxProver struct {
 	p       *Prog
 	fn      *ssa.Function
 	phiBusy map[*ssa.Phi]bool
+	via     *Edge // while a phi's incoming value is judged: the edge it arrives on (a guard may sit on that very edge)
 }
 
 // indexExceptions: function → expression → reason. An edited expression no
 // longer matches its entry and is reported.
 var indexExceptions = map[string]map[string]string{
-	"ignorefiles.readRules": {
-		"rules[i]": "loop invariant: i starts at currentRuleIndex = len(rules)-1 (rules grows by one per increment) and only decreases to 0",
-	},
 	"(*sourcebundle.Dependencies).AddLocalSource": {
 		"realSource.(sourceaddrs.RemoteSource)": "ResolveRelativeSource with a RemoteSource base and a LocalSource argument returns a RemoteSource on its nil-error edge (type switch arm)",
 	},
@@ -286,10 +284,10 @@ func (ix *idxProver) minLen(X ssa.Value, at *ssa.BasicBlock) (int, string) {
 		if neg {
 			boundT, boundF = boundF, boundT
 		}
-		if boundT > best && guarded(at, []Edge{{b, 0}}) {
+		if boundT > best && (guarded(at, []Edge{{b, 0}}) || ix.arrivesOn(b, 0)) {
 			best, why = boundT, "length guard at "+ix.p.Pos(ifi.Cond.Pos())
 		}
-		if boundF > best && guarded(at, []Edge{{b, 1}}) {
+		if boundF > best && (guarded(at, []Edge{{b, 1}}) || ix.arrivesOn(b, 1)) {
 			best, why = boundF, "length guard at "+ix.p.Pos(ifi.Cond.Pos())
 		}
 	}
@@ -334,7 +332,18 @@ func (ix *idxProver) intrinsicLen(X ssa.Value, at *ssa.BasicBlock) (int, string)
 		defer delete(ix.phiBusy, x)
 		m := -1
 		for i, e := range x.Edges {
-			n, _ := ix.minLen(e, x.Block().Preds[i])
+			pred := x.Block().Preds[i]
+			saved := ix.via
+			ix.via = nil
+			if len(pred.Succs) == 2 && pred.Succs[0] != pred.Succs[1] {
+				for k := range pred.Succs {
+					if pred.Succs[k] == x.Block() {
+						ix.via = &Edge{pred, k}
+					}
+				}
+			}
+			n, _ := ix.minLen(e, pred)
+			ix.via = saved
 			if m < 0 || n < m {
 				m = n
 			}
@@ -996,6 +1005,12 @@ func (ix *idxProver) le(v ssa.Value, c int, B bterm, at *ssa.BasicBlock, seen ma
 	if seen[k] {
 		return true // inductive hypothesis for loop-carried values
 	}
+	// ... which also covers every weaker claim about the same value: v + c ≤ v + c' ≤ B for c ≤ c'
+	for c2 := c + 1; c2 <= 64; c2++ {
+		if seen[fmt.Sprintf("%p+%d<=%s", v, c2, B.key())] {
+			return true
+		}
+	}
 	seen[k] = true
 	if B.val != nil && v == B.val && c <= 0 {
 		return true
@@ -1022,6 +1037,16 @@ func (ix *idxProver) le(v ssa.Value, c int, B bterm, at *ssa.BasicBlock, seen ma
 		}
 		return false
 	case *ssa.Phi:
+		// a counter and a slice carried round the same loop in lockstep (n = len(s)-1 at entry, n+1 with every
+		// append): the bound is proved edge by edge against the slice's value on that edge
+		if S, ok := B.lenOf.(*ssa.Phi); ok && S.Block() == x.Block() && len(S.Edges) == len(x.Edges) {
+			for i, e := range x.Edges {
+				if !ix.le(e, c, bterm{lenOf: S.Edges[i]}, x.Block().Preds[i], seen) {
+					return false
+				}
+			}
+			return true
+		}
 		for i, e := range x.Edges {
 			if !ix.le(e, c, B, x.Block().Preds[i], seen) {
 				return false
@@ -1032,6 +1057,12 @@ func (ix *idxProver) le(v ssa.Value, c int, B bterm, at *ssa.BasicBlock, seen ma
 		switch x.Op {
 		case token.ADD:
 			if n, ok := constInt(x.Y); ok {
+				// against append(S, k elements): v + n + c ≤ len(S) + k follows from v + n + c - k ≤ len(S)
+				if base, k, ok := appendedTo(B.lenOf); ok && k > 0 {
+					if ix.le(x.X, c+int(n)-k, bterm{lenOf: base}, at, seen) {
+						return true
+					}
+				}
 				return ix.le(x.X, c+int(n), B, at, seen)
 			}
 			if n, ok := constInt(x.X); ok {
@@ -1178,6 +1209,19 @@ func (ix *idxProver) lenLe(S ssa.Value, B bterm) bool {
 	if B.lenOf != nil && (sameSeq(S, B.lenOf) || canon(S) == canon(B.lenOf)) {
 		return true
 	}
+	// append(a, b...) is at least as long as a and as b; append(a, x, y) as a
+	if cl, ok := B.lenOf.(*ssa.Call); ok {
+		if bi, ok := cl.Call.Value.(*ssa.Builtin); ok && bi.Name() == "append" {
+			for _, a := range cl.Call.Args {
+				if _, isVar := a.(*ssa.Slice); isVar {
+					continue // the argument list of a variadic call
+				}
+				if sameSeq(S, a) || canon(S) == canon(a) {
+					return true
+				}
+			}
+		}
+	}
 	// what Cut found in front of the separator is not longer than what was cut
 	if S2, _, _, ok := cutBefore(S); ok {
 		return ix.lenLe(S2, B)
@@ -1240,4 +1284,34 @@ func (ix *idxProver) sliceByBounds(s *ssa.Slice) (bool, string) {
 		}
 	}
 	return true, "0 ≤ low ≤ high ≤ len by difference bounds over strings.Index results (found ⇒ index + len(needle) ≤ len(haystack))"
+}
+
+// appendedTo: v = append(base, e1 … ek) with k counted from the argument list.
+func appendedTo(v ssa.Value) (base ssa.Value, k int, ok bool) {
+	cl, isCall := v.(*ssa.Call)
+	if !isCall {
+		return nil, 0, false
+	}
+	bi, isB := cl.Call.Value.(*ssa.Builtin)
+	if !isB || bi.Name() != "append" || len(cl.Call.Args) != 2 {
+		return nil, 0, false
+	}
+	sl, isS := cl.Call.Args[1].(*ssa.Slice)
+	if !isS || sl.Low != nil || sl.High != nil {
+		return nil, 0, false
+	}
+	al, isA := sl.X.(*ssa.Alloc)
+	if !isA {
+		return nil, 0, false
+	}
+	arr, isArr := derefType(al.Type()).Underlying().(*types.Array)
+	if !isArr {
+		return nil, 0, false
+	}
+	return cl.Call.Args[0], int(arr.Len()), true
+}
+
+// arrivesOn: the value being judged arrives at its phi over exactly this edge.
+func (ix *idxProver) arrivesOn(b *ssa.BasicBlock, k int) bool {
+	return ix.via != nil && ix.via.From == b && ix.via.Succ == k
 }
